@@ -57,6 +57,10 @@ def adversarial_block(rng, fmt):
 
 def shard(ctx):
     rng, P = ctx.rng, ctx.params
+    from .. import faults, seeds
+    fr = __import__("random").Random("c13-failing-%d-%d" % (ctx.seed, ctx.index))
+    bad = [ctx.write("failing-%d.tex" % i, d) for i, d in enumerate(x for _, data, _ in seeds.seeds_tex(fr)[:3] for x in faults.damaged_variants(fr, data, 3))]
+    ctx.failing_calls_first([("tex.parse", (b, ctx.path("failing.rgba"))) for b in bad], before=("tex.parse",))
     for i in range(P["n"]):
         big = i < P["big"]
         fmt = rng.choice(list(tex.FORMATS))
